@@ -175,4 +175,118 @@ func genC19(g *gen) {
 		g.n++
 		fmt.Fprintf(g.w, "%s%d ; %s\n", g.pfx, g.n, strings.Join(steps, " ; "))
 	}
+	genC19Masked(g)
+}
+
+// genC19Masked: histories over masked tensors (value set 0, where the model decides the predicates): masked
+// tensors, views of them, tensors handed back to the pool and re-borrowed, masks (re)created by predicates on
+// other tensors; after every step the logical mask and the elements of every live tensor are observed.
+func genC19Masked(g *gen) {
+	nprog := 150
+	maxLen := 14
+	if g.thorough() {
+		nprog = 4000
+		maxLen = 40
+	}
+	type tv struct {
+		v     int
+		shape []int
+	}
+	shapes := [][]int{{6}, {2, 3}, {3, 2}, {4}, {2, 2}, {8}, {2, 4}}
+	// directed histories: a view of a masked tensor is handed back, a smaller tensor is built and masked by a
+	// predicate (makeMask), a view of it is returned in turn, …; every live tensor is observed after each step
+	for _, dt := range []string{"f64", "i16", "u8"} {
+		for _, c := range []struct {
+			sh   []int
+			spec string
+		}{{[]int{2, 4}, "1"}, {[]int{2, 4}, "0"}, {[]int{6}, "2:6"}, {[]int{2, 3}, "n,1:3"}, {[]int{8}, "0:8:2"}, {[]int{3, 2}, "1:3"}} {
+			for _, bsh := range [][]int{{3}, {2}, {4}, {2, 2}} {
+				steps := []string{"vset=0", "pool on",
+					fmt.Sprintf("mnew %s %s C %s", dt, ints(c.sh), g.maskBits(size(c.sh), "rand")),
+					fmt.Sprintf("slice $0 %s", c.spec), "mdump $1", "ret $1",
+					fmt.Sprintf("new %s %s C", dt, ints(bsh)),
+					fmt.Sprintf("mpred %s $2 %s #k%d", g.r.pick([]string{"gt", "lte", "ne"}), g.r.pick([]string{"hard", "soft", "dflt"}), 2+g.r.intn(60)),
+					"mdump $0", "mdump $2",
+					fmt.Sprintf("mpred %s $0 hard #k%d", g.r.pick([]string{"gt", "lte"}), 2+g.r.intn(8)), "mdump $0", "mdump $2",
+					"slice $2 0:1", "ret $3", fmt.Sprintf("new %s 2 C", dt), "mpred gt $4 dflt #k1", "mdump $0", "mdump $2", "mdump $4"}
+				g.emit(steps...)
+			}
+		}
+	}
+	for k := 0; k < nprog; k++ {
+		dt := g.r.pick([]string{"i16", "f64", "i32", "u8", "f32"})
+		steps := []string{"vset=0", "pool on"}
+		nv := 0
+		var live []tv
+		newM := func(masked bool) {
+			sh := shapes[g.r.intn(len(shapes))]
+			if masked {
+				steps = append(steps, fmt.Sprintf("mnew %s %s C %s", dt, ints(sh), g.maskBits(size(sh), g.r.pick([]string{"rand", "alt", "zeros", "rand"}))))
+			} else {
+				steps = append(steps, fmt.Sprintf("new %s %s C", dt, ints(sh)))
+			}
+			live = append(live, tv{nv, sh})
+			nv++
+		}
+		dumpAll := func() {
+			for _, t := range live {
+				steps = append(steps, fmt.Sprintf("mdump $%d", t.v))
+			}
+		}
+		newM(true)
+		newM(g.r.chance(1, 2))
+		n := 4 + g.r.intn(maxLen-3)
+		justReturned := false
+		for s := 0; s < n; s++ {
+			if len(live) == 0 {
+				newM(true)
+			}
+			ti := g.r.intn(len(live))
+			t := live[ti]
+			c := g.r.intn(9)
+			if justReturned { // re-borrow right after a return: that is when a recycled struct shows
+				c = 1 + g.r.intn(2)
+				justReturned = false
+			}
+			switch c {
+			case 0:
+				if len(live) < 6 && t.shape != nil {
+					spec := g.randSliceList(t.shape)
+					steps = append(steps, fmt.Sprintf("slice $%d %s", t.v, spec))
+					live = append(live, tv{nv, sliceShapeGuess(t.shape, spec)})
+					nv++
+				}
+			case 1:
+				if len(live) < 6 {
+					newM(false)
+				}
+			case 2:
+				if len(live) < 6 {
+					newM(true)
+				}
+			case 3, 4:
+				op := g.r.pick([]string{"gt", "lte", "eq", "ne", "lt", "gte"})
+				steps = append(steps, fmt.Sprintf("mpred %s $%d %s #k%d", op, t.v, g.r.pick([]string{"soft", "hard", "dflt"}), 2+g.r.intn(40)))
+			case 5:
+				if len(live) > 1 {
+					steps = append(steps, fmt.Sprintf("ret $%d", t.v))
+					live = append(live[:ti], live[ti+1:]...)
+					justReturned = true
+				}
+			case 6:
+				if len(live) < 6 {
+					steps = append(steps, fmt.Sprintf("clone $%d", t.v))
+					live = append(live, tv{nv, t.shape})
+					nv++
+				}
+			case 7:
+				steps = append(steps, g.r.pick([]string{"gc", "pool on", "harden $" + fmt.Sprint(t.v), "soften $" + fmt.Sprint(t.v)}))
+			case 8:
+				steps = append(steps, fmt.Sprintf("memset $%d", t.v))
+			}
+			dumpAll()
+		}
+		g.n++
+		fmt.Fprintf(g.w, "%s%d ; %s\n", g.pfx, g.n, strings.Join(steps, " ; "))
+	}
 }
